@@ -64,7 +64,9 @@ var c02Wrappers = []c02Wrapper{
 	{"cond", func(x *sx.N, k int) *sx.N {
 		return sx.Call("cond", sx.L(sx.Y("false"), sx.I(0)), sx.L(sx.Y("true"), sx.I(1), x))
 	}},
-	{"cond-else", func(x *sx.N, k int) *sx.N { return sx.Call("cond", sx.L(sx.Y("false"), sx.I(0)), sx.L(sx.Y("else"), x)) }},
+	{"cond-else", func(x *sx.N, k int) *sx.N {
+		return sx.Call("cond", sx.L(sx.Y("false"), sx.I(0)), sx.L(sx.Y("else"), x))
+	}},
 	{"progn", func(x *sx.N, k int) *sx.N { return sx.Call("progn", sx.I(1), x) }},
 	{"let", func(x *sx.N, k int) *sx.N {
 		return sx.Call("let", sx.L(sx.L(sx.Y(fmt.Sprintf("t%d", k)), sx.I(1))), x)
@@ -92,7 +94,7 @@ var c02Wrappers = []c02Wrapper{
 
 // --- call forms: (callee n' acc') written in five ways -------------------------
 
-var c02CallForms = []string{"direct", "thread-first", "thread-last", "funcall", "apply"}
+var c02CallForms = []string{"direct", "thread-first", "thread-last", "funcall", "apply", "head-call"}
 
 func c02Call(form, callee string, n, acc *sx.N) *sx.N {
 	switch form {
@@ -104,6 +106,10 @@ func c02Call(form, callee string, n, acc *sx.N) *sx.N {
 		return sx.Call("funcall", sx.Y(callee), n, acc)
 	case "apply":
 		return sx.Call("apply", sx.Y(callee), n, sx.Call("list", acc))
+	case "head-call":
+		// ((callee -2 0) n' acc'): the HEAD is itself a call into the loop (it returns a
+		// function that continues it); a head is evaluated, never tail-called
+		return sx.L(sx.Call(callee, sx.I(-2), sx.I(0)), n, acc)
 	}
 	return sx.Call(callee, n, acc)
 }
@@ -114,6 +120,7 @@ type c02Shape struct {
 	cycle   int    // 1 self, 2, 3
 	definer string // defun labels set-lambda
 	iters   []int
+	side    bool // the body also makes a NON-final call for effect to a function of the cycle
 }
 
 func (s c02Shape) name() string {
@@ -121,7 +128,11 @@ func (s c02Shape) name() string {
 	for _, w := range s.chain {
 		ws = append(ws, c02Wrappers[w].name)
 	}
-	return fmt.Sprintf("chain=[%s] call=%s cycle=%d definer=%s", strings.Join(ws, ">"), s.call, s.cycle, s.definer)
+	sd := ""
+	if s.side {
+		sd = " +non-final-call"
+	}
+	return fmt.Sprintf("chain=[%s] call=%s cycle=%d definer=%s%s", strings.Join(ws, ">"), s.call, s.cycle, s.definer, sd)
 }
 
 func c02ShapeFor(w *fw.W, idx int, tier string) c02Shape {
@@ -149,7 +160,7 @@ func c02ShapeFor(w *fw.W, idx int, tier string) c02Shape {
 			c := ci - 1 - nw
 			chain = []int{c / nw, c % nw}
 		}
-		return c02Shape{chain: chain, call: call, cycle: cycle, definer: definers[(idx/7)%3], iters: iters}
+		return c02Shape{chain: chain, call: call, cycle: cycle, definer: definers[(idx/7)%3], iters: iters, side: idx%4 == 1}
 	}
 	r := w.RNG(idx, "shape")
 	n := r.Range(3, 5)
@@ -157,7 +168,7 @@ func c02ShapeFor(w *fw.W, idx int, tier string) c02Shape {
 	for i := range chain {
 		chain[i] = r.Intn(nw)
 	}
-	return c02Shape{chain: chain, call: fw.Pick(r, c02CallForms), cycle: r.Range(1, 3), definer: fw.Pick(r, definers), iters: iters}
+	return c02Shape{chain: chain, call: fw.Pick(r, c02CallForms), cycle: r.Range(1, 3), definer: fw.Pick(r, definers), iters: iters, side: r.Chance(1, 3)}
 }
 
 // c02LoopProgram renders the loop functions.  Each function samples the stack
@@ -173,27 +184,44 @@ func c02LoopProgram(s c02Shape, n int) string {
 			call = c02Wrappers[s.chain[k]].wrap(call, k)
 		}
 		body := sx.Call("if", sx.Call("<=", sx.Y("n"), sx.I(0)), sx.Y("acc"), call)
+		if s.call == "head-call" {
+			body = sx.Call("if", sx.Call("<", sx.Y("n"), sx.I(-1)),
+				sx.Call("lambda", sx.L(sx.Y("a"), sx.Y("b")), sx.Call(names[i], sx.Y("a"), sx.Y("b"))), body)
+		}
 		return sx.L(sx.Y("n"), sx.Y("acc")), body
 	}
+	// non-final body forms: a base-case marker and, on even turns, a call made
+	// for effect to a function of the cycle (it returns at once: n = -1)
+	pre := func(i int) []*sx.N {
+		if !s.side {
+			return nil
+		}
+		target := names[(i+s.cycle-1)%s.cycle]
+		return []*sx.N{
+			sx.Call("if", sx.Call("=", sx.Y("n"), sx.I(-1)), sx.Call("verif:probe", sx.QY("side"), sx.Y("acc")), sx.Nil()),
+			sx.Call("if", sx.Call("and", sx.Call(">", sx.Y("n"), sx.I(0)), sx.Call("=", sx.I(0), sx.Call("mod", sx.Y("n"), sx.I(2)))), sx.Call(target, sx.I(-1), sx.Y("n")), sx.Nil()),
+		}
+	}
+	withPre := func(i int, head []*sx.N, b *sx.N) []*sx.N { return append(append(head, pre(i)...), b) }
 	start := sx.Call(names[0], sx.I(int64(n)), sx.I(0))
 	switch s.definer {
 	case "labels":
 		var bs []*sx.N
 		for i, nm := range names {
 			f, b := mk(i)
-			bs = append(bs, sx.L(sx.Y(nm), f, sx.Call("verif:depth"), b))
+			bs = append(bs, sx.L(withPre(i, []*sx.N{sx.Y(nm), f, sx.Call("verif:depth")}, b)...))
 		}
 		// funcall/apply resolve symbols globally, so pass the function value
 		return sx.Render([]*sx.N{sx.Call("labels", sx.L(bs...), start)}, nil)
 	case "set-lambda":
 		for i, nm := range names {
 			f, b := mk(i)
-			defs = append(defs, sx.Call("set", sx.QY(nm), sx.Call("lambda", f, sx.Call("verif:depth"), b)))
+			defs = append(defs, sx.Call("set", sx.QY(nm), sx.Call("lambda", withPre(i, []*sx.N{f, sx.Call("verif:depth")}, b)...)))
 		}
 	default:
 		for i, nm := range names {
 			f, b := mk(i)
-			defs = append(defs, sx.Call("defun", sx.Y(nm), f, sx.Call("verif:depth"), b))
+			defs = append(defs, sx.Call("defun", withPre(i, []*sx.N{sx.Y(nm), f, sx.Call("verif:depth")}, b)...))
 		}
 	}
 	return sx.Render(append(defs, start), nil)
@@ -202,11 +230,11 @@ func c02LoopProgram(s c02Shape, n int) string {
 // --- hook monitor ---------------------------------------------------------------
 
 type c02Mon struct {
-	elideEvents   int64
-	elidedFrames  int64
-	badElide      string
-	maxHeight     int
-	pushes, pops  int64
+	elideEvents  int64
+	elidedFrames int64
+	badElide     string
+	maxHeight    int
+	pushes, pops int64
 }
 
 var c02Cur *c02Mon
@@ -304,6 +332,7 @@ func c02Run(w *fw.W, idx int) {
 
 func c02RunShape(w *fw.W, idx int) {
 	s := c02ShapeFor(w, idx, w.Tier)
+	heightAt := map[int]int{}
 	for _, n := range s.iters {
 		src := c02LoopProgram(s, n)
 		on := c02Exec(src, rt.Opts{})
@@ -315,13 +344,21 @@ func c02RunShape(w *fw.W, idx int) {
 				src+"\n"+on.t.Value+"\n"+on.t.Msg)
 			return
 		}
-		if len(on.samples) != n+1 {
+		if !s.side && s.call != "head-call" && len(on.samples) != n+1 {
 			w.Violation("tail-loop-samples:"+c02ShapeKey(s), fmt.Sprintf("expected %d stack samples, got %d", n+1, len(on.samples)), src)
 			return
 		}
+		if s.side {
+			// every even turn makes one extra (non-final) call, which must run: n/2 base-case markers
+			want := n / 2
+			if got := strings.Count(on.t.TraceString(), "side"); got != want {
+				w.Violation("non-final-call-dropped:"+c02ShapeKey(s), fmt.Sprintf("a loop of %d turns makes %d calls in non-final body forms, %d ran", n, want, got), src+"\n"+on.t.TraceString())
+				return
+			}
+		}
 		// constant stack: every function of the cycle is entered at the same
 		// height on every turn from its second entry on
-		for i := 2 * s.cycle; i < len(on.samples); i++ {
+		for i := 2 * s.cycle; !s.side && s.call != "head-call" && i < len(on.samples); i++ {
 			ref := on.samples[i-s.cycle]
 			if on.samples[i].Height != ref.Height {
 				w.Violation("tail-loop-stack-grows:"+c02ShapeKey(s),
@@ -353,6 +390,12 @@ func c02RunShape(w *fw.W, idx int) {
 				}
 			}
 		}
+		heightAt[n] = on.mon.maxHeight
+		if h10, ok := heightAt[10]; ok && n > 10 && on.mon.maxHeight != h10 {
+			w.Violation("tail-loop-stack-grows:"+c02ShapeKey(s),
+				fmt.Sprintf("the maximum stack height of %s grows with the iteration count: %d frames for 10 turns, %d for %d turns", s.name(), h10, on.mon.maxHeight, n), src)
+			return
+		}
 		w.Count("tail_elide_events", on.mon.elideEvents)
 		w.Count("elided_frames", on.mon.elidedFrames)
 		w.Count("depth_samples", int64(len(on.samples)))
@@ -373,7 +416,11 @@ func c02ShapeKey(s c02Shape) string {
 	for _, w := range s.chain {
 		ws = append(ws, c02Wrappers[w].name)
 	}
-	return fmt.Sprintf("%s/%s/cycle%d/%s", strings.Join(ws, ">"), s.call, s.cycle, s.definer)
+	sd := ""
+	if s.side {
+		sd = "/non-final-call"
+	}
+	return fmt.Sprintf("%s/%s/cycle%d/%s%s", strings.Join(ws, ">"), s.call, s.cycle, s.definer, sd)
 }
 
 func c02Heights(s []rt.DepthSample, max int) string {
